@@ -237,9 +237,9 @@ func (o OrderedCollectionPage) MarshalJSON() ([]byte, error) {
 	if o.Prev != nil {
 		notEmpty = JSONWriteItemProp(&b, "prev", o.Prev) || notEmpty
 	}
-	notEmpty = JSONWriteIntProp(&b, "totalItems", int64(o.TotalItems)) || notEmpty
+	notEmpty = JSONWriteUintProp(&b, "totalItems", uint64(o.TotalItems)) || notEmpty
 	if o.StartIndex > 0 {
-		notEmpty = JSONWriteIntProp(&b, "startIndex", int64(o.StartIndex)) || notEmpty
+		notEmpty = JSONWriteUintProp(&b, "startIndex", uint64(o.StartIndex)) || notEmpty
 	}
 	if o.OrderedItems != nil {
 		notEmpty = JSONWriteItemCollectionProp(&b, "orderedItems", o.OrderedItems, false) || notEmpty
